@@ -147,7 +147,7 @@ def main():
         return 2
     if getattr(mod, 'THREAD_REPLICA', True):
         rrng = common.rng_for(cid, 'replica')
-        cands = [s for s in shards if s.get('kind', 'mod') not in ('sweep', 'cp', 'thread', 'cold', 'hist')]
+        cands = [s for s in shards if s.get('kind', 'mod') not in ('sweep', 'cp', 'thread', 'cold', 'hist', 'doctests')]
         if hasattr(mod, 'replica_bases'):
             groups = mod.replica_bases(args.tier, rrng)
         else:
